@@ -612,18 +612,34 @@ pub fn strategy() -> impl Strategy<Value = BCase> {
         .prop_map(|(kind, offered, capacity, policy, ops)| BCase { kind, offered: offered | if kind.legacy() { 0 } else { offered & F_VERSION_1 }, capacity, policy, ops })
 }
 
-pub fn replay(_e: &str, case: &serde_json::Value) -> Result<(), String> {
+pub fn replay(e: &str, case: &serde_json::Value) -> Result<(), String> {
+    if e == "capacity" {
+        return crate::props::c13::replay(e, case);
+    }
     check(&serde_json::from_value(case.clone()).map_err(|e| e.to_string())?, &mut Stats::default())
 }
 
 pub fn run(ctx: &Ctx) -> Report {
-    let (stats, failure) = run_proptest(ctx, "blk", 141, ctx.n(300_000, 12_000_000), strategy, |c: &BCase, st| check(c, st));
+    // capacity() equals a capacity the device exposed, whenever the device changes it while the
+    // driver is reading its two halves (update schedules shared with C13)
+    let (mut stats, mut failure) = crate::runner::run_items(ctx, "capacity", crate::props::c13::torn_items(crate::props::c13::Drv::Blk, ctx.quick()), |it, st| {
+        let r = crate::props::c13::run_item(it, st);
+        if r.is_ok() {
+            st.class("capacity_read_under_config_updates");
+        }
+        r
+    });
+    if failure.is_none() {
+        let (st, f) = run_proptest(ctx, "blk", 141, ctx.n(300_000, 12_000_000), strategy, |c: &BCase, st| check(c, st));
+        stats.merge(st);
+        failure = f;
+    }
     Report {
         stats,
         failure,
         info: PartInfo {
             level: "exploration",
-            rule: "proptest histories over read_blocks/write_blocks (1..8 sectors), flush, device_id, read_blocks_nb/write_blocks_nb/peek_used/complete_* with up to a queue-full outstanding and device-chosen completion order; sectors inside, at the edge of and far beyond a 64-sector reference disk; injected statuses 0/1/2/3/other; features +-RO +-FLUSH +-INDIRECT +-EVENT_IDX +-VERSION_1; on the model transport, real MMIO (legacy/modern) and real PCI; device servicing policies OnNotify/Poll/Late. The reference block device parses every chain against virtio-blk 5.2 (header, data direction and size, 1-byte status), a model disk is compared with the device disk at the end. Non-trivial = >=2 outstanding non-blocking requests completed out of order, or a non-OK status; distinct = (transport, accepted features, op kinds/sizes/outcomes).",
+            rule: "proptest histories over read_blocks/write_blocks (1..8 sectors), flush, device_id, read_blocks_nb/write_blocks_nb/peek_used/complete_* with up to a queue-full outstanding and device-chosen completion order; sectors inside, at the edge of and far beyond a 64-sector reference disk; injected statuses 0/1/2/3/other; features +-RO +-FLUSH +-INDIRECT +-EVENT_IDX +-VERSION_1; on the model transport, real MMIO (legacy/modern) and real PCI; device servicing policies OnNotify/Poll/Late. The reference block device parses every chain against virtio-blk 5.2 (header, data direction and size, 1-byte status), a model disk is compared with the device disk at the end. capacity() is also read while the device changes its configuration before every single configuration access and every pair of accesses of the constructor (must equal one exposed value). Non-trivial = >=2 outstanding non-blocking requests completed out of order, or a non-OK status; distinct = (transport, accepted features, op kinds/sizes/outcomes).",
             assumptions: vec!["blocking calls are generated only while nothing non-blocking is outstanding (documented precondition of add_notify_wait_pop)".into()],
             exhaustive: false,
             extra: json!({}),
